@@ -22,11 +22,45 @@ type verifRefServer struct{}
 func (s verifRefServer) Lock(remote string, req *lockRequest) (*lockResponse, int, error) {
 	return &lockResponse{Message: "not supported by this stub"}, 500, nil
 }
+
+// VerifHeld: the locks the server holds (for Search / Unlock); VerifUnlocked:
+// ids the client asked to release, in order, with the force flag.
+var (
+	VerifHeld     []Lock
+	VerifUnlocked []string
+)
+
 func (s verifRefServer) Unlock(ref *git.Ref, remote, id string, force bool) (*unlockResponse, int, error) {
-	return &unlockResponse{Message: "not supported by this stub"}, 500, nil
+	f := ""
+	if force {
+		f = " force"
+	}
+	VerifUnlocked = append(VerifUnlocked, id+f)
+	for k, l := range VerifHeld {
+		if l.Id == id {
+			VerifHeld = append(VerifHeld[:k:k], VerifHeld[k+1:]...)
+			return &unlockResponse{Lock: &Lock{Id: l.Id, Path: l.Path}}, 200, nil
+		}
+	}
+	return &unlockResponse{Message: "no such lock"}, 404, nil
 }
 func (s verifRefServer) Search(remote string, req *lockSearchRequest) (*lockList, int, error) {
-	return &lockList{}, 200, nil
+	var out []Lock
+	for _, l := range VerifHeld {
+		ok := true
+		for _, f := range req.Filters {
+			if f.Property == "path" && f.Value != l.Path {
+				ok = false
+			}
+			if f.Property == "id" && f.Value != l.Id {
+				ok = false
+			}
+		}
+		if ok {
+			out = append(out, l)
+		}
+	}
+	return &lockList{Locks: out}, 200, nil
 }
 func (s verifRefServer) SearchVerifiable(remote string, req *lockVerifiableRequest) (*lockVerifiableList, int, error) {
 	name := ""
